@@ -46,6 +46,10 @@ func sortedTxs(l *core.VerifTxList) []*types.Transaction {
 //   - all == pending ∪ queue: every list mutation is paired with all.Add / all.Remove;
 //   - priced ⊇ remote(all): txPricedList doc ("all the stored **remote** transactions"), stale
 //     entries are allowed (lazy removal), heap order is container/heap's invariant;
+//   - nothing executable stays queued across a reset run: promoteExecutables "moves transactions
+//     that have become processable from the future queue to the set of pending transactions"
+//     (Ready(state nonce) for every queued account; only the nonce equal to the state nonce is
+//     required — with this fork's tracker rebuild a nonce equal to the pending tail may wait);
 //   - pendingNonces: runReorg "Update all accounts to the latest known pending nonce";
 //   - limits: truncatePending (total <= GlobalSlots unless nobody is above AccountSlots),
 //     truncateQueue (total <= GlobalQueue), promoteExecutables (AccountQueue per account),
@@ -161,6 +165,10 @@ func checkSnapshot(u *universe, s *core.VerifPoolSnapshot, at *block, quiescent 
 			}
 			if kind == "queue" && tx.Nonce() < st.Nonce {
 				add("queue-stale-nonce", "queue[%s]: %s is below the state nonce %d", name, u.describe(tx), st.Nonce)
+			}
+			if kind == "queue" && quiescent && tx.Nonce() == st.Nonce {
+				// a reset run promotes for every queued account with Ready(state nonce)
+				add("executable-left-in-queue", "queue[%s]: %s has the state nonce %d and is payable but was not promoted by the reset run", name, u.describe(tx), st.Nonce)
 			}
 		}
 	}
@@ -284,7 +292,11 @@ func checkSnapshot(u *universe, s *core.VerifPoolSnapshot, at *block, quiescent 
 			want += uint64(len(l.Items))
 		}
 		if got := nonceOf(u.addrs[i]); got != want {
-			add("pending-nonce-tracker", "pool.Nonce(%s) = %d, state nonce %d + %d pending = %d", acctNames[i], got, at.st[i].Nonce, want-at.st[i].Nonce, want)
+			fp := "pending-nonce-tracker"
+			if got < at.st[i].Nonce {
+				fp = "nonce-tracker-below-state-nonce" // FPTrackerLow
+			}
+			add(fp, "pool.Nonce(%s) = %d, state nonce %d + %d pending = %d", acctNames[i], got, at.st[i].Nonce, want-at.st[i].Nonce, want)
 			out[len(out)-1].Acct = i
 		}
 	}
